@@ -101,6 +101,7 @@ func childMain() {
 	ev := newEvaluator(c, prog.stage)
 	res := &result{SiteHits: map[string]*[3]int64{}}
 	uniq := map[uint64]struct{}{}
+	seenCase := map[string]bool{}
 
 	hit := func(s *site, which int) {
 		h := res.SiteHits[s.Path]
@@ -142,6 +143,11 @@ func childMain() {
 				}
 				prog.set(rec)
 				rk := ev.evalBytes(in.data, mutNames[in.mut])
+				if len(res.Cases) < 4 && !seenCase[rk] && len(in.data) > 0 && len(in.data) <= 96 {
+					seenCase[rk] = true
+					res.Cases = append(res.Cases, map[string]interface{}{"codec": c.Name, "mutation": mutNames[in.mut],
+						"input_hex": hexCap(in.data), "reference_outcome": rk})
+				}
 				res.Inputs++
 				uniq[fnv64(in.data)] = struct{}{}
 				if k == 0 && pv.target != nil && pv.target.site.MaxLen > 0 {
@@ -190,10 +196,7 @@ func childMain() {
 			if vi%3 == 0 && len(menu) > 0 {
 				t := menu[(vi/3)%len(menu)]
 				pv.target = &t
-				g.target, g.targetLen = t.site, t.ln
-				if t.ln == 0 && !t.nilV {
-					g.emptyBias = 2
-				}
+				g.target, g.targetLen, g.targetNil = t.site, t.ln, t.nilV
 			}
 			prog.set(-2 - vi)
 			prog.stage(stGenerate)
@@ -237,7 +240,7 @@ func childMain() {
 			pv.lay = p.layoutOf(reflect.ValueOf(pv.obj).Elem(), 1<<20)
 			prog.stage(stIdle)
 			pv.rec = log.add(1, 0, k, []byte(fmt.Sprintf("big value %d: site %s length %d, other slices short (regenerate with the job coordinates)", k, t.site.Path, t.ln)))
-			pv.inputs = bigMutations(rng, pv.lay.buf, pv.lay.prefixes, t.site)
+			pv.inputs = bigMutations(rng, pv.lay.buf, pv.lay.prefixes, t.site, !r.Quick())
 			pv.recs0 = log.n
 			for _, in := range pv.inputs {
 				if len(in.data) <= 1<<16 {
